@@ -264,6 +264,39 @@ func TestC17(t *testing.T) {
 					}
 				}
 			}
+			// features whose EFFECT is gated inside a method that is itself reachable: the liquidity contract's Fund / BurnZnn
+			// (spork key only) do nothing below the accelerator spork's enforcement height
+			for _, r := range l.Blocks[types.LiquidityContract] {
+				if r.BlockType != nom.BlockTypeContractReceive || seenRecv[r.Hash] {
+					continue
+				}
+				seenRecv[r.Hash] = true
+				snd := l.Sends[r.FromBlockHash]
+				if snd == nil || len(snd.Data) < 4 {
+					continue
+				}
+				m, err := definition.ABILiquidity.MethodById(snd.Data[:4])
+				if err != nil || (m.Name != definition.FundMethodName && m.Name != definition.BurnZnnMethodName) {
+					continue
+				}
+				accelerator := false
+				for _, sp := range model {
+					if sp.impl == 0 && sp.activated && sp.enforce <= r.MomentumAcknowledged.Height && r.MomentumAcknowledged.Height > 1 {
+						accelerator = true
+					}
+				}
+				moved := 0
+				for _, d := range r.DescendantBlocks {
+					if d.Amount != nil && d.Amount.Sign() > 0 && d.ToAddress != snd.Address {
+						moved++
+					}
+				}
+				c.Class(fmt.Sprintf("liquidity.%s executed, accelerator spork active=%v, funds moved=%v", m.Name, accelerator, moved > 0))
+				if !accelerator && moved > 0 {
+					c.Failf("C17/available-before-enforcement/liquidity."+m.Name+"-effect", "liquidity.%s executed against momentum %d moved funds out of the contract although the accelerator spork is not active at that height (sporks: %s)",
+						m.Name, r.MomentumAcknowledged.Height, c17describe(model))
+				}
+			}
 			// the contract's table equals the model
 			got := definition.GetAllSporks(h.A.Chain.GetFrontierAccountStore(types.SporkContract).Storage())
 			if len(got) != len(model) {
@@ -388,6 +421,22 @@ func TestC17(t *testing.T) {
 			updateModel()
 		}
 		acts := histActions(h)
+		// the spork key moves / burns funds of the liquidity contract (somebody donated to it first)
+		acts["liquidityFund"] = func() {
+			if h.Balance(types.LiquidityContract, types.ZnnTokenStandard).Cmp(big.NewInt(10)) < 0 || h.Balance(types.LiquidityContract, types.QsrTokenStandard).Cmp(big.NewInt(10)) < 0 {
+				u := h.Users[c.Pick("lf.donor", len(h.Users))]
+				z := []types.ZenonTokenStandard{types.ZnnTokenStandard, types.QsrTokenStandard}[c.Pick("lf.token", 2)]
+				if !h.ActCall(u, types.LiquidityContract, z, big.NewInt(1000), definition.ABILiquidity.PackMethodPanic(definition.DonateMethodName), "liquidity.Donate") {
+					_, _ = h.Submit(&nom.AccountBlock{Address: u, ToAddress: types.LiquidityContract, TokenStandard: z, Amount: big.NewInt(1000)}, "plain transfer to the liquidity contract")
+				}
+				return
+			}
+			if c.Bool("lf.burn") {
+				h.ActCall(sporkKey, types.LiquidityContract, types.ZnnTokenStandard, big.NewInt(0), definition.ABILiquidity.PackMethodPanic(definition.BurnZnnMethodName, big.NewInt(1)), "liquidity.BurnZnn(1) by the spork key")
+			} else {
+				h.ActCall(sporkKey, types.LiquidityContract, types.ZnnTokenStandard, big.NewInt(0), definition.ABILiquidity.PackMethodPanic(definition.FundMethodName, big.NewInt(1), big.NewInt(1)), "liquidity.Fund(1, 1) by the spork key")
+			}
+		}
 		acts["sporkCreate"] = create
 		acts["sporkActivate"] = activate
 		acts["sporkActivate2"] = activate
